@@ -65,6 +65,12 @@ def build(backend, tier):
     for hi in ("j.nTrk() - 1", "j.nTrk() - 2", "j.tags().Count() - 1"):
         add("range-bounds:per-object", f"ds.Select(lambda e: {S}.Select(lambda j: Range(0, {hi}).Count()))")
         add("range-bounds:per-object-sum", f"ds.SelectMany(lambda e: {S}).Select(lambda j: Range(0, {hi}).Sum())")
+    # ---- chained comparisons are not supported (C09 demands a refusal); IF one is translated, it is as lazy as Python's:
+    # a < b < c does not evaluate c once a < b is false
+    for name, (p, good) in list(ev_partials.items())[:6]:
+        add(f"chained-compare-guard:{name}", f"ds.Select(lambda e: 0 < {S}.Count() <= {p})")
+        add(f"chained-compare-guard-where:{name}", f"ds.Where(lambda e: 0 < {S}.Count() <= {p}).Select(lambda e: {S}.Count())")
+        add(f"chained-compare-guard-first-middle:{name}", f"ds.Select(lambda e: 5 < {S}.Count() < {p} < 1000)")
     weak_guards = [f"{S}.Count() > 0", f"{S}.Count() > 1", f"{T}.Count() > 0", f"{S}.Count() >= 0", f"{S}.Count() == 0"]
     for name, (p, good) in ev_partials.items():
         add(f"bare:{name}", f"ds.Select(lambda e: {p})")
@@ -163,6 +169,9 @@ def post(outs, events):
     for o in outs:
         c = o.case
         base = {"kind": c.info["kind"], "query": c.text, "backend": c.backend, "pid": c.pid}
+        if o.status == "refused" and c.info["kind"].startswith("chained-compare-guard"):
+            stats["refused_unsupported_form"] += 1
+            continue
         if o.status == "refused":
             stats["refused"] += 1
             recs.append(dict(base, symptom="refused", exc=f"{o.pkg.exc_type}: {o.pkg.exc_msg}"[:200], explained_by=None))
